@@ -225,7 +225,7 @@ func (g *projGen) perturb(m *pMethod, structNames []string) string {
 		}
 	}
 	kinds := []string{"add-unbound-param", "add-url-param", "results-none", "results-three", "results-nonerror", "verb-invalid", "verb-unsupported", "unknown-annotation", "bad-status",
-		"verb-case", "dup-path-alias", "swap-path-alias", "prefix-url-param", "alias-steals-variable", "second-route", "alias-collides-with-name", "warn-prop-and-error"}
+		"verb-case", "dup-path-alias", "swap-path-alias", "prefix-url-param", "alias-steals-variable", "second-route", "alias-collides-with-name", "warn-prop-and-error", "bind-context"}
 	if len(bindIdx) > 0 {
 		kinds = append(kinds, "drop-annot", "dup-annot", "rename-annot-value", "retype-struct", "retype-slice", "bad-alias", "annot-no-value")
 	}
@@ -320,6 +320,27 @@ func (g *projGen) perturb(m *pMethod, structNames []string) string {
 	case "results-error-field":
 		// a struct that only HAS a field of type error does not implement it
 		m.Results = []string{"string", "Failure"}
+	case "bind-context":
+		// an annotation naming the request context: the router hands the context over, nothing binds it (C10-F6)
+		hasCtx := false
+		for _, q := range m.Params {
+			hasCtx = hasCtx || q.Type == "context.Context"
+		}
+		if !hasCtx {
+			m.Params = append([]pParam{{Name: "ctx", Type: "context.Context"}}, m.Params...)
+		}
+		name := "ctx"
+		for _, q := range m.Params {
+			if q.Type == "context.Context" {
+				name = q.Name
+			}
+		}
+		if routeIdx >= 0 && r.Bool() {
+			m.Annots[routeIdx].Value += "/{" + name + "}"
+			m.Annots = append(m.Annots, pAnnot{Name: "Path", Value: name})
+		} else {
+			m.Annots = append(m.Annots, pAnnot{Name: rng.Pick(r, []string{"Query", "Header"}), Value: name})
+		}
 	case "local-context-param":
 		// a user type that is merely named Context is an ordinary (unreferenced) parameter
 		m.Params = append(m.Params, pParam{Name: "rc", Type: "Context"})
@@ -764,6 +785,9 @@ func genProj(seed uint64, n int, tier string, emit func(string, []string, any)) 
 		if os.Getenv("VH_TYPES") != "" {
 			p, applied = genTypesProject(cr)
 		}
+		if os.Getenv("VH_COMMENT_SITES") != "" {
+			applied = append(applied, commentSite(cr, &p))
+		}
 		if os.Getenv("VH_LOAD_FAILURES") != "" && np == 0 && cr.Chance(1, 3) {
 			p.Config.AllowLoadFailures = true
 			applied = append(applied, "package-with-load-error")
@@ -836,3 +860,87 @@ func genProj(seed uint64, n int, tier string, emit func(string, []string, any)) 
 }
 
 func init() { gens["proj"] = genProj }
+
+
+// commentSite places one annotation line - half of the time with a JSON5 object that does not parse - into the doc
+// comment of a struct field, a type, an enum constant, a controller or a route method (C16)
+func commentSite(r *rng.R, p *pProject) string {
+	bad := []string{
+		`@Deprecated(v2, { replacedBy: "contact" note: "x" }) Use Contact`,
+		`@Description(d, { a: }) text`,
+		`@Deprecated(v1, { "k": [1, 2 }) gone`,
+		`@Description(d, {,}) text`,
+	}
+	good := []string{
+		`@Deprecated(v2, { replacedBy: "contact", note: "x" }) Use Contact`,
+		`@Description(d, { a: 1 }) text`,
+		`@Deprecated(v1, { "k": [1, 2] }) gone`,
+		`@Description(d, { a: "}" }) text`,
+	}
+	site := &pSite{Malformed: r.Bool()}
+	k := r.Intn(len(bad))
+	site.Line = good[k]
+	if site.Malformed {
+		site.Line = bad[k]
+	}
+	structs, enums := []int{}, []int{}
+	for i, t := range p.Types {
+		if t.Kind == "struct" && len(t.Fields) > 0 {
+			structs = append(structs, i)
+		}
+		if t.Kind == "enum" && len(t.Consts) > 0 {
+			enums = append(enums, i)
+		}
+	}
+	kinds := []string{"controller", "method"}
+	if len(structs) > 0 {
+		kinds = append(kinds, "field", "field", "field")
+	}
+	if len(p.Types) > 0 {
+		kinds = append(kinds, "type", "type")
+	}
+	if len(enums) > 0 {
+		kinds = append(kinds, "const")
+	}
+	site.Kind = rng.Pick(r, kinds)
+	switch site.Kind {
+	case "field":
+		t := &p.Types[rng.Pick(r, structs)]
+		fi := r.Intn(len(t.Fields))
+		t.Fields[fi].Doc = site.Line
+		site.Type, site.Pkg, site.Member = t.Name, t.Pkg, t.Fields[fi].Name
+	case "type":
+		t := &p.Types[r.Intn(len(p.Types))]
+		t.Doc = append(t.Doc, site.Line)
+		site.Type, site.Pkg = t.Name, t.Pkg
+	case "const":
+		t := &p.Types[rng.Pick(r, enums)]
+		nHere := len(t.Consts)
+		if k := t.ConstsElsewhere; k > 0 && k < len(t.Consts) {
+			nHere = len(t.Consts) - k
+		}
+		ci := r.Intn(nHere)
+		t.ConstDocs = make([]string, len(t.Consts))
+		t.ConstDocs[ci] = site.Line
+		site.Type, site.Pkg, site.Member = t.Name, t.Pkg, t.Consts[ci][0]
+	case "controller":
+		c := &p.Controllers[r.Intn(len(p.Controllers))]
+		c.Annots = append(c.Annots, pAnnot{Raw: "// " + site.Line})
+		site.Type = c.Name
+	case "method":
+		c := &p.Controllers[r.Intn(len(p.Controllers))]
+		if len(c.Methods) == 0 {
+			c.Annots = append(c.Annots, pAnnot{Raw: "// " + site.Line})
+			site.Kind, site.Type = "controller", c.Name
+			break
+		}
+		m := &c.Methods[r.Intn(len(c.Methods))]
+		m.Annots = append(m.Annots, pAnnot{Raw: "// " + site.Line})
+		site.Type, site.Member = c.Name, m.Name
+	}
+	p.Site = site
+	if site.Malformed {
+		return "site-malformed:" + site.Kind
+	}
+	return "site-wellformed:" + site.Kind
+}
